@@ -87,6 +87,9 @@ class Sink:
         b = resolve_opt(self.ctx, b)
         if b is None or isinstance(b, (SStr, str, SInt, int)):
             raise PyRaise(TypeError, "a bytes-like object is required")
+        if isinstance(b, SBufferView):
+            self.ctx.effects.append(("iface", "sink.write(<memoryview of a temporary buffer>)", "escaping alias"))
+            raise IfaceViolation("IFACE: writer hands the stream a memoryview of a temporary buffer (the stream may keep it)")
         self.segs.extend(as_bytes(b))
         self.nwrites += 1
         return None
@@ -282,6 +285,16 @@ class Source:
 
 
 # =============================================================================== BytesIO
+class SBufferView(SBytes):
+    """memoryview exported by a local BytesIO (getbuffer()): reading it is fine; handing it to the stream is not - the
+    stream contract lets the stream keep what it is given (a transport queues it), and closing or resizing the
+    temporary while an export is alive raises BufferError, so the outcome would depend on the kind of stream"""
+
+    def __init__(self, segs, owner):
+        super().__init__(segs)
+        self.owner = owner
+
+
 class LocalBytesIO:
     """io.BytesIO(): a fresh private buffer. `before` = bytes left of the position,
     `after` = bytes right of it."""
@@ -309,7 +322,7 @@ class LocalBytesIO:
                 raise PyRaise(ValueError, "I/O operation on closed file")
             return SymMethod(closed)
         m = {"write": self.write, "getvalue": self.getvalue, "tell": self.tell, "read": self.read,
-             "seek": self.seek, "close": self.kvc_exit, "__enter__": self.kvc_enter}.get(name)
+             "seek": self.seek, "close": self.kvc_exit, "__enter__": self.kvc_enter, "getbuffer": self.getbuffer}.get(name)
         if m is None:
             raise Undecided(f"BytesIO.{name} is not modelled")
         return SymMethod(m, name)
@@ -328,6 +341,10 @@ class LocalBytesIO:
 
     def getvalue(self):
         return SBytes(self.before + self.after)
+
+    def getbuffer(self):
+        """a memoryview of the private buffer: same bytes, but an ALIAS of this activation's temporary"""
+        return SBufferView(self.before + self.after, self)
 
     def tell(self):
         return lower(zint(total_len(normalise(self.before))))
